@@ -1,0 +1,74 @@
+//go:build verif
+
+package keystore
+
+// Contracts for govc (see /verif/DESIGN.md, C04): what reaches the wallet store and the exported file.
+// (1) Bucket.Put is an effect only the store helpers of db.go may reach (attr absorbs): no other function of this package
+//     writes to the store.  (2) At every call of a helper that takes key material, the value is the result of an Encrypt
+//     call (or the Marshal of a master key: scrypt parameters and digest), and private material is sealed under the private
+//     keys.  (3) The exported structure is assembled only from values fetched from the store.
+
+//@ func putMasterKeyParams
+//@   attr absorbs:store.put
+//@ func putMasterHDKeys
+//@   attr absorbs:store.put
+//@ func putCryptoKeys
+//@   attr absorbs:store.put
+//@ func putAccountUsage
+//@   attr absorbs:store.put
+//@ func putAccountRow
+//@   attr absorbs:store.put
+//@ func putCoinType
+//@   attr absorbs:store.put
+//@ func putAccountID
+//@   attr absorbs:store.put
+//@ func putRemark
+//@   attr absorbs:store.put
+//@ func putBranchPubKeys
+//@   attr absorbs:store.put
+//@ func initBranchChildNum
+//@   attr absorbs:store.put
+//@ func updateChildNum
+//@   attr absorbs:store.put
+//@ func putLastIndex
+//@   attr absorbs:store.put
+//@ func putEncryptedPubKey
+//@   attr absorbs:store.put
+
+//@ func putAccountInfo
+//@   assert-at call serializeHDAccountKey row-is-built-from-the-two-ciphertexts: arg0 == encryptedPubKey && arg1 == encryptedPrivKey
+//@   assert-at call putAccountRow that-row-is-what-is-stored: arg2.rawData == lastresult("serializeHDAccountKey")
+
+//@ func create
+//@   assert-at call Encrypt#2 private-crypto-key-sealed-under-the-private-master-key: arg0 == masterKeyPriv
+//@   assert-at call Encrypt#3 root-private-key-sealed-under-the-private-crypto-key: arg0 == cryptoKeyPriv
+//@   assert-at call putMasterKeyParams only-master-key-parameters: arg1 == lastresult("Marshal#1") && arg2 == lastresult("Marshal#2")
+//@   assert-at call putMasterHDKeys only-ciphertexts-of-the-root-keys: arg1 == lastresult("Encrypt#3") && arg2 == lastresult("Encrypt#4")
+//@   assert-at call putCryptoKeys only-ciphertexts-of-the-crypto-keys: arg1 == lastresult("Encrypt#1") && arg2 == lastresult("Encrypt#2")
+
+//@ func createManagerKeyScope
+//@   assert-at call Encrypt#2 account-private-key-sealed-under-the-private-crypto-key: arg0 == cryptoKeyPriv
+//@   assert-at call putAccountInfo only-ciphertexts-of-the-account-keys: arg2 == lastresult("Encrypt#1") && arg3 == lastresult("Encrypt#2")
+//@   assert-at call putEncryptedPubKey#1 only-the-ciphertext-of-the-public-key: arg3 == lastresult("Encrypt#3")
+//@   assert-at call putEncryptedPubKey#2 only-the-ciphertext-of-the-public-key: arg3 == lastresult("Encrypt#4")
+//@   assert-at call putBranchPubKeys only-ciphertexts-of-the-branch-public-keys: arg1 == lastresult("Encrypt#5") && arg2 == lastresult("Encrypt#6")
+
+//@ func (*KeystoreManagerForPoC).allocAddrMgrNamespace
+//@   assert-at call Encrypt#2 private-crypto-key-sealed-under-the-private-master-key: arg0 == masterKeyPriv
+//@   assert-at call Encrypt#3 root-private-key-sealed-under-the-private-crypto-key: arg0 == cryptoKeyPriv
+//@   assert-at call putMasterKeyParams only-master-key-parameters: arg1 == lastresult("Marshal#1") && arg2 == lastresult("Marshal#2")
+//@   assert-at call putMasterHDKeys only-ciphertexts-of-the-root-keys: arg1 == lastresult("Encrypt#3") && arg2 == lastresult("Encrypt#4")
+//@   assert-at call putCryptoKeys only-ciphertexts-of-the-crypto-keys: arg1 == lastresult("Encrypt#1") && arg2 == lastresult("Encrypt#2")
+
+//@ func (*AddrManager).changePrivPassphrase
+//@   assert-at call Encrypt private-crypto-key-sealed-under-the-new-private-master-key: arg0 == newMasterPrivKey
+//@   assert-at call putMasterKeyParams only-the-new-master-key-parameters: arg1 == nil && arg2 == lastresult("Marshal")
+//@   assert-at call putCryptoKeys only-the-new-ciphertext: arg1 == nil && arg2 == lastresult("Encrypt")
+
+//@ func export
+//@   assert-at call EncodeToString#1 exported-root-key-is-the-stored-ciphertext: arg0 == lastresult("fetchMasterHDKeys", 0)
+//@   assert-at call EncodeToString#2 exported-parameters-are-the-stored-ones: arg0 == lastresult("fetchMasterKeyParams", 0)
+//@   assert-at call EncodeToString#3 exported-parameters-are-the-stored-ones: arg0 == lastresult("fetchMasterKeyParams", 1)
+//@   assert-at call EncodeToString#4 exported-crypto-keys-are-the-stored-ciphertexts: arg0 == lastresult("fetchCryptoKeys", 0)
+//@   assert-at call EncodeToString#5 exported-crypto-keys-are-the-stored-ciphertexts: arg0 == lastresult("fetchCryptoKeys", 1)
+//@   assert-at return#-1 file-fields-are-those-encodings: result0 != nil && result0.Crypto.MasterHDPrivKeyEnc == lastresult("EncodeToString#1") && result0.Crypto.PubParams == lastresult("EncodeToString#2") && result0.Crypto.PrivParams == lastresult("EncodeToString#3") && result0.Crypto.CryptoKeyPubEnc == lastresult("EncodeToString#4") && result0.Crypto.CryptoKeyPrivEnc == lastresult("EncodeToString#5")
